@@ -6,5 +6,7 @@ INVARIANT SingleEntryExact
 INVARIANT EntryBeyondList
 INVARIANT ListBeyondInput
 INVARIANT IdIs32
+INVARIANT ManyEntries
+INVARIANT SigLengthSweep
 INVARIANT EmitCase
 CHECK_DEADLOCK FALSE
